@@ -53,7 +53,8 @@ def plan(tier, seed, kf_ids, prefix="c12", budget=False):
     a = "I9F23"
     jobs.append(T.total1(prefix, "exp", a, a, T.FULL, "all", UW(a, 26), B(a), bounds="all 2^32 operands"))
     jobs.append(T.trig(prefix, "sin", a, T.FULL, "all", UW(a, 30), B(a), 200 if not budget else 0))
-    jobs.append(T.trig(prefix, "cos", a, T.FULL, "all", UW(a, 30), B(a), 200 if not budget else 0))
+    # cos adds pi/2 before reducing: operands within 2 of the type's maximum overflow that addition (outside C12's |x|<=200)
+    jobs.append(T.trig(prefix, "cos", a, T.FULL, "all", UW(a, 30), B(a), 200 if not budget else 254))
     jobs.append(T.total1(prefix, "log2", a, a, T.FULL, "all", UW(a, 36), B(a), timeout=2400, bounds="all 2^32 operands"))
     fam = "+-(2^p +- t), max - t, min + t; t < 256, every binade p"
     jobs.append(T.total1(prefix, "sqrt", a, a, T.family(a), "family", UW(a, 36), B(a), timeout=2400, bounds=fam))
